@@ -31,7 +31,7 @@ def tree_hash():
         h.update(b'\0')
     # the machinery itself is part of the key: a new translator / prelude invalidates cached results
     for f in sorted(glob.glob(os.path.join(VERIF, 'xlate', 'src', '*.rs'))) + sorted(glob.glob(os.path.join(VERIF, 'harness', 'src', '*.rs'))) \
-            + sorted(glob.glob(os.path.join(TFV, 'TFV', 'Prelude', '*.lean'))) + [MODEL_DEFS, os.path.join(TFV, 'TFV', 'Extra.lean'), os.path.join(TFV, 'Main.lean'), os.path.join(TFV, 'TFV', 'Hand', 'Serde.lean'),
+            + sorted(glob.glob(os.path.join(TFV, 'TFV', 'Prelude', '*.lean'))) + [MODEL_DEFS, os.path.join(TFV, 'TFV', 'Extra.lean'), os.path.join(TFV, 'Main.lean'), os.path.join(TFV, 'TFV', 'Hand', 'Serde.lean'), os.path.join(TFV, 'TFV', 'Hand', 'NumCast.lean'),
                os.path.join(TFV, 'TFV', 'Spec', 'Comm.lean'), os.path.join(TFV, 'TFV', 'Spec', 'Comm2.lean'), os.path.abspath(__file__)]:
         with open(f, 'rb') as fh:
             h.update(fh.read())
